@@ -295,8 +295,9 @@ def check(col, prog, tier, profile, fixture=None):
     # ---------------- A2: the provided method and every override of it in an impl of Rand
     shuffles = [shuffle] + [b_ for b_ in crate.bodies if not b_.is_closure and b_.name == "shuffle" and b_.key != shuffle.key and str((crate.impl_of(b_) or {}).get("trait") or "").endswith("Rand")]
     default_shuffle = shuffle
+    free_helpers = [f_ for f_ in crate.bodies if not f_.is_closure and f_.kind == "Fn" and f_.container is None and f_.vis != "pub" and not util.self_recursive(f_)]
     for shuffle in shuffles:
-        I = util.analyse(shuffle)
+        I = util.analyser(free_helpers, features=("fncall",))(shuffle)
         vpl = ("deref", ("param", 2, I.names.get(2)))
         if shuffle.key != default_shuffle.key and not I.loops:
             # a forwarding impl (`impl<G: Rand> Rand for &mut G { fn shuffle(..) { (**self).shuffle(v) } }`): one call of
@@ -309,10 +310,14 @@ def check(col, prog, tier, profile, fixture=None):
                 col.ok("A2" + sfx, shuffle.loc(), "%s|forwards" % fk(shuffle), "forwards to the referent's shuffle on the same slice", nontrivial=False)
                 continue
         backs = [s for l in I.backedge_states.values() for s in l]
+        if not backs:
+            backs = [s for _u, l in I.inl_back_groups for s in l]   # the loop sits in an inlined private helper
         writes_ok = True
         shape_ok = False
-        for st in I.all_end_states():
+        for st in list(I.all_end_states()) + list(I.inl_back):
             for e in st.event_list():
+                if e.kind == "call" and e.extra.get("inlined"):
+                    continue
                 if e.kind == "store" and any(s == vpl for s in [e.place] + list(subterms(e.place))):
                     writes_ok = False
                 if e.kind == "call" and e.args and any(a == ("ref", vpl) for a in e.args):
@@ -347,7 +352,7 @@ def check(col, prog, tier, profile, fixture=None):
                     rngok = bool(ent) and all(x == mk_int(1) for x in ent) and step and guard
                     j = sw[0].args[2]
                     a = nx[0].args[1]
-                    shape_ok = (j == nx[0].res or (nx[0].extra.get("uid") is not None and j == nx[0].res)) and a == ("rangeincl", mk_int(0), i)
+                    shape_ok = (j == nx[0].res or (nx[0].extra.get("uid") is not None and j == nx[0].res)) and a == ("rangeincl", mk_int(0), i) and len(sw) == 1 and len(nx) == 1
             if rng_iter and sw and nx:
                 r = rng_iter[0]
                 ln = r[2]
@@ -355,7 +360,7 @@ def check(col, prog, tier, profile, fixture=None):
                 i = sw[0].args[1]
                 j = sw[0].args[2]
                 a = nx[0].args[1]
-                shape_ok = i[0] == "elem" and j == nx[0].res and a == ("rangeincl", mk_int(0), i)
+                shape_ok = i[0] == "elem" and j == nx[0].res and a == ("rangeincl", mk_int(0), i) and len(sw) == 1 and len(nx) == 1
         if rngok:
             col.ok("A2" + sfx, shuffle.loc(), "%s|loop-1..len" % fk(shuffle), "i ranges over 1..len")
         else:
